@@ -16,7 +16,7 @@ Kinds == {"linkfile", "layout", "rules", "keymat"}
 
 FieldsOf(k) ==
   CASE k = "linkfile" -> {"sig_keyid", "sig_value", "signatures", "type", "name", "paths", "digest", "command",
-                          "byproducts", "environment"}
+                          "byproducts", "environment", "filename"}
     [] k = "layout"   -> {"expires", "keytable", "step_name", "threshold", "pubkeys", "rule", "inspect", "readme", "sigs"}
     [] k = "rules"    -> {"item_paths", "ref_paths", "pattern", "prefix", "from"}
     [] k = "keymat"   -> {"form", "damage"}
@@ -32,6 +32,10 @@ ClassesOf(f) ==
     [] f = "command"     -> {"list", "empty", "string", "numbers"}
     [] f = "byproducts"  -> {"normal", "retval_min", "retval_big", "retval_float", "stdout_number", "nested", "empty"}
     [] f = "environment" -> {"null", "empty", "map", "list", "nested", "missing"}
+    \* the NAME under which the file sits in the link directory: <step>.<8 characters>.link, where the
+    \* directory scan accepts any 8 characters (the key-id prefix is text an attacker chooses, too)
+    [] f = "filename"    -> {"prefix8", "eight_3byte", "four_ascii_four_3byte", "eight_2byte", "eight_4byte", "one_3byte_seven_ascii",
+                             "uppercase_prefix", "directory_named_like_a_link"}
     [] f = "expires"     -> {"ok", "garbage", "year0", "year9999", "year10000", "leap_second", "empty", "number", "past"}
     [] f = "keytable"    -> {"ok", "id_mismatch", "garbage_hex", "odd_hex", "not_pem", "truncated_pem", "unknown_type", "scheme_mismatch", "empty"}
     [] f = "step_name"   -> {"plain", "empty", "slash", "dotdot", "glob_open", "glob_star", "nonascii", "duplicate"}
@@ -54,7 +58,7 @@ ClassesOf(f) ==
                              "empty_octets", "nested_empty"}
 
 DefaultOf(f) == CHOOSE c \in ClassesOf(f) :
-  c \in {"ok", "one", "link", "plain", "list", "normal", "null", "none", "owner", "present", "spki_ed25519"}
+  c \in {"ok", "one", "link", "plain", "list", "normal", "null", "none", "owner", "present", "spki_ed25519", "prefix8"}
 
 EntryPointsOf(k) ==
   CASE k = "linkfile" -> {"parse_block", "parse_wrapper", "block_verify", "final_product_verification"}
